@@ -677,6 +677,18 @@ func TestForInPassScope(t *testing.T) {
 		{"nested-block-name", func() []*gen.Node {
 			return []*gen.Node{gen.NCall("probe", gen.NStr("before"), id("tt")), gen.NIf([]*gen.Node{gen.NBool(true)}, [][]*gen.Node{{gen.NSet("tt", gen.NInt(5)), gen.NSet("inner", gen.NInt(1))}}, nil, false), gen.NSet("tt", gen.NInt(7))}
 		}},
+		{"nested-first-in-later-pass", func() []*gen.Node {
+			// the first pass assigns the name at body level; later passes assign it first inside a nested block and read it
+			// after that block: it was local to the block
+			return []*gen.Node{gen.NSet("cnt", gen.NBin("+", id("cnt"), gen.NInt(1))),
+				gen.NIf([]*gen.Node{gen.NBin(">", id("cnt"), gen.NInt(1))}, [][]*gen.Node{{gen.NIf([]*gen.Node{gen.NBool(true)}, [][]*gen.Node{{gen.NSet("tt", gen.NInt(5)), gen.NCall("probe", gen.NStr("in-block"), id("tt"))}}, nil, false), gen.NCall("probe", gen.NStr("after-block"), id("tt"))}}, nil, false),
+				gen.NSet("tt", id("cnt")), gen.NCall("probe", gen.NStr("end-of-pass"), id("tt"))}
+		}},
+		{"nested-loop-first-in-later-pass", func() []*gen.Node {
+			return []*gen.Node{gen.NSet("cnt", gen.NBin("+", id("cnt"), gen.NInt(1))),
+				gen.NIf([]*gen.Node{gen.NBin(">", id("cnt"), gen.NInt(1))}, [][]*gen.Node{{gen.NForIn("q", gen.NList(gen.NInt(1)), []*gen.Node{gen.NAssign("+=", []*gen.Node{id("tt")}, []*gen.Node{gen.NInt(5)})}), gen.NCall("probe", gen.NStr("after-loop"), id("tt"))}}, nil, false),
+				gen.NSet("tt", id("cnt"))}
+		}},
 		{"conditional-first-pass", func() []*gen.Node {
 			return []*gen.Node{gen.NIf([]*gen.Node{gen.NBin("==", id("cnt"), gen.NInt(0))}, [][]*gen.Node{{gen.NSet("cnt", gen.NInt(1))}}, nil, false), gen.NCall("probe", gen.NStr("tt"), id("tt")), gen.NSet("tt", id("cnt"))}
 		}},
